@@ -261,7 +261,7 @@ def run(F, chk):
     rd.require(nsites >= 6, "only %d TcpStream::shutdown sites seen (positive control floor 6)" % nsites)
     # ---------------- R-C01-e -----------------------------------------------------
     re_ = chk.rule("R-C01-e", "T5", "WRITABLE interest withdrawn only when nothing is pending", floor=1)
-    fw = F.body(H2 + "::<Front>::finalize_write")
+    fw = lib.flat(F, F.body(H2 + "::<Front>::finalize_write"), keep=("::socket_wants_write",))
     re_.fn(fw.path)
     removes = []
     for bi, t in fw.calls():
